@@ -23,8 +23,7 @@ Vocabulary of the statements:
   the pipe is forgotten, every other call (arena traffic, `read_n`, detached-slice surgery, ops on other
   objects) = identity.
 * `Rel g s` = every live handle's `absW` is the reference pipe; `AllInv` = every live iovec satisfies the
-  single-iovec invariant `IovInv` of C03/C04 (anch's weakened form: pairwise-disjoint slices, anchor
-  counts summing to the slice count).
+  single-iovec invariant in the form `W.IovInv` (see below).
 
 What a CLONE WITH PENDING HOLES means: the clone has its own copy of the placeholder bookkeeping (so its
 pipe has the same holes, with the same ids) but SHARES the placeholder's memory with the original; either
@@ -36,16 +35,16 @@ live iovec references `X`'s pending placeholder memory: `FillPrivate` (= `NoShar
 handle `j`).  `Props/C20W.lean`: `NoShare` is preserved by every step and holds for every pair of iovecs
 unless one was cloned from the other while a placeholder was pending.
 
-The second side condition, `PushFresh`: a `push_aslice` must not push memory the target iovec already
-references (possible only with a `s_clone`d anchored slice pushed twice into one iovec); the invariant
-`IovInv.ordered` (pairwise-disjoint slices) is false after such a push.  STATUS (`_partial`): the theorems
-named `…_partial` carry `PushFresh` (per step) / `OkRun` (both side conditions at every step of the history;
-decidable by running the model, `World.okRunB`).  No constructor of `WOp` is excluded; the excluded
-HISTORIES are those that push (a clone of) an anchored slice into an iovec that already references that
-memory.  Full statement wanted: the same without `PushFresh` — it needs `IovInv.ordered` replaced by "no
-other slice of the iovec covers a pending placeholder range" throughout `Proofs/IovecInv.lean` /
-`IovecAbs.lean` / `IovecAnch.lean` (the only place disjointness is USED is `World.backfill_spec`).
-`consume_reports_w`, `other_handles_unchanged`, `ghost_run_is_world_run` are full.
+The invariant: `IovInv` of C03/C04 demands that the owned slices of an iovec are pairwise disjoint, which is
+FALSE in this vocabulary (an anchored slice can be `s_clone`d and both copies pushed into one iovec).  The
+development uses `W.IovInv` (`Proofs/IovecXInv.lean`, `IovecXAbs.lean`, `IovecXAnch.lean`: the single-iovec
+lemmas re-proved): disjointness is replaced by what `backfill` actually needs — no slice of the iovec other
+than its target covers a pending placeholder range.  `AllInv` (every live iovec satisfies it) holds in EVERY
+reachable world, with no side condition (`reachable_inv_w`), for all 38 constructors of `WOp`.
+
+Run-level statements carry `OkRun` = `FillPrivate` at every step (decidable by running the model:
+`World.okRunB`, `ok_run_decidable`; it holds at every step of every history in which each clone found nothing
+pending: `Props/C20W.fill_private_of_clean_clones`).
 -/
 import Woodpile.Proofs.IovecWLedger
 
@@ -62,36 +61,43 @@ iovec, keeps every live handle's abstraction equal to the reference pipe — the
 corresponding pipe operation, a created handle by move / copy / fresh pipe, every other handle by the
 identity —, keeps the handle count and the token table in step, and its returned value satisfies the
 pipe-level side condition (`specOk` of C03 for the named handle). -/
-theorem wop_refines_partial {g g' : GW} {op : WOp} {r : WRet} {caps : Nat → Nat} {s : PW} (hg : GReach g.w caps)
-    (hall : AllInv g.w) (hok : StepOk g.w op) (hrel : Rel g s) (h : g.step op = some (g', r)) :
+theorem wop_refines {g g' : GW} {op : WOp} {r : WRet} {caps : Nat → Nat} {s : PW} (hg : GReach g.w caps)
+    (hok : FillPrivate g.w op) (hrel : Rel g s) (h : g.step op = some (g', r)) :
     AllInv g'.w ∧ Rel g' (s.step op r) ∧ s.ok op r :=
-  gstep_rel hg hall hok hrel h
+  gstep_rel hg hg.allInv hok hrel h
+
+/-- The invariant holds in EVERY reachable world — all 38 constructors, no side condition: every live iovec
+satisfies `W.IovInv` (non-empty in-bounds slices below their arena's bump pointer, size and anchor-count
+bookkeeping, sane sorted pending backrefs whose ranges no other slice of the iovec covers). -/
+theorem reachable_inv_w {w : World} (h : Reachable w) : AllInv w := by
+  obtain ⟨caps, hg⟩ := h.exists_caps
+  exact hg.allInv
 
 /-- … spelled out for the handles the op does not name: same model value, same abstraction — for every op
 on any other object (another iovec, a detached arena or anchored slice), a `backfill` through another
 iovec `X` included when no slice of `j` covers a pending placeholder range of `X`. -/
 theorem other_handles_unchanged {g g' : GW} {op : WOp} {r : WRet} {caps : Nat → Nat} (hg : GReach g.w caps)
-    (hall : AllInv g.w) (h : g.step op = some (g', r)) {j : Nat} {v : Iov} (hv : g.w.iov j = some v)
+    (h : g.step op = some (g', r)) {j : Nat} {v : Iov} (hv : g.w.iov j = some v)
     (hj : op.iovTarget ≠ some j) (hff : FillFree g.w op j) :
-    g'.w.iov j = some v ∧ IovInv g'.w v ∧ absW g' j = absW g j := by
+    g'.w.iov j = some v ∧ W.IovInv g'.w v ∧ absW g' j = absW g j := by
   obtain ⟨w', h1, rfl, rfl⟩ := GW.step_some' h
-  obtain ⟨f1, f2, f3⟩ := frame_other hg h1 hv hj (hall j v hv) hff
+  obtain ⟨f1, f2, f3⟩ := frame_other hg h1 hv hj (hg.allInv j v hv) hff
   refine ⟨f1, f2, ?_⟩
   obtain ⟨e1, e2⟩ := ghost'_other g op j hj (Nat.ne_of_lt (iov_lt_of_some hv))
   rw [absW_live _ j v f1, absW_live g j v hv, absCells_congr f3]
   simp only [e1, e2]
 
 /-- … and for the named handle (any of the 22 calls that name one). -/
-theorem named_handle_refines_partial {g g' : GW} {op : WOp} {r : WRet} {caps : Nat → Nat} (hg : GReach g.w caps)
-    (hall : AllInv g.w) (hpf : PushFresh g.w op) (h : g.step op = some (g', r)) {i : Nat} {v : Iov}
+theorem named_handle_refines {g g' : GW} {op : WOp} {r : WRet} {caps : Nat → Nat} (hg : GReach g.w caps)
+    (h : g.step op = some (g', r)) {i : Nat} {v : Iov}
     (hi : op.iovTarget = some i) (hv : g.w.iov i = some v) :
     absW g' i = (g.pw.step op r).pipe i ∧ g.pw.ok op r := by
   obtain ⟨w', h1, rfl, rfl⟩ := GW.step_some' h
-  obtain ⟨_, t2, t3⟩ := target_all hg h1 hi hv (hall i v hv) hpf
+  obtain ⟨_, t2, t3⟩ := target_all hg h1 hi hv (hg.allInv i v hv)
   exact ⟨t2, t3⟩
 
 /-- Lifted to every history from the initial world (side conditions: see the file header). -/
-theorem reachable_refines_w_partial (pol : Policy) (tun : Tuning) (ops : List WOp) (g : GW) (rs : List WRet)
+theorem reachable_refines_w (pol : Policy) (tun : Tuning) (ops : List WOp) (g : GW) (rs : List WRet)
     (hok : (GW.init pol tun).OkRun ops) (h : (GW.init pol tun).run ops = some (g, rs)) :
     AllInv g.w ∧ Rel g (PW.init.run ops rs) ∧ PW.init.okRun ops rs := by
   obtain ⟨a, b, c, _⟩ := grun_init pol tun ops g rs hok h
@@ -101,26 +107,26 @@ theorem reachable_refines_w_partial (pol : Policy) (tun : Tuning) (ops : List WO
 followed by the bytes still readable (the stable prefix), followed by the not-yet-readable cells, are
 exactly `j`'s ledger: everything appended to it since its last clear (to the iovec it was taken from /
 cloned from, up to that moment), in order, with every backfilled placeholder holding its value. -/
-theorem fifo_w_partial (pol : Policy) (tun : Tuning) (ops : List WOp) (g : GW) (rs : List WRet)
+theorem fifo_w (pol : Policy) (tun : Tuning) (ops : List WOp) (g : GW) (rs : List WRet)
     (hok : (GW.init pol tun).OkRun ops) (h : (GW.init pol tun).run ops = some (g, rs)) (j : Nat) (v : Iov)
     (hv : g.w.iov j = some v) :
     (LW.init.run ops rs).led j = (g.ghost j).map Cell.byte ++ (g.w.visible v).map Cell.byte ++
       mkCells v.backrefs (v.consumedSize + (g.w.visible v).length) (g.w.flat (v.slices.drop v.stableN)) := by
-  obtain ⟨hall, hrel, hokr⟩ := reachable_refines_w_partial pol tun ops g rs hok h
+  obtain ⟨hall, hrel, hokr⟩ := reachable_refines_w pol tun ops g rs hok h
   have hh := hist_run ops PW.init rs hokr
   have e0 : PW.init.hist = LW.init := rfl
   rw [e0] at hh
   rw [← hh]
   show pipeHistory ((PW.init.run ops rs).pipe j) = _
   rw [← hrel.pipe j v hv, absW_live g j v hv]
-  simp only [pipeHistory, absCells_visible (hall j v hv), List.append_assoc]
+  simp only [pipeHistory, W.absCells_visible (hall j v hv), List.append_assoc]
 
 /-- The reported total size is the number of buffered cells, and buffered plus consumed is the whole ledger. -/
-theorem size_eq_w_partial (pol : Policy) (tun : Tuning) (ops : List WOp) (g : GW) (rs : List WRet)
+theorem size_eq_w (pol : Policy) (tun : Tuning) (ops : List WOp) (g : GW) (rs : List WRet)
     (hok : (GW.init pol tun).OkRun ops) (h : (GW.init pol tun).run ops = some (g, rs)) (j : Nat) (v : Iov)
     (hv : g.w.iov j = some v) :
     v.totalSize = (absW g j).size ∧ v.totalSize + (g.ghost j).length = ((LW.init.run ops rs).led j).length := by
-  obtain ⟨hall, hrel, hokr⟩ := reachable_refines_w_partial pol tun ops g rs hok h
+  obtain ⟨hall, hrel, hokr⟩ := reachable_refines_w pol tun ops g rs hok h
   have hi := hall j v hv
   have hsz : v.totalSize = (absCells g.w v).length := by
     simp only [absCells, mkCells_length, hi.flat_length, Iov.totalSize]
@@ -139,17 +145,14 @@ theorem size_eq_w_partial (pol : Policy) (tun : Tuning) (ops : List WOp) (g : GW
 byte cells at the front of the handle's pipe, they are exactly what leaves the pipe and what is added to
 the consumed log, and the byte-counting calls (`advance`, `read`) return `rm.length`. -/
 theorem consume_reports_w {g g' : GW} {op : WOp} {r : WRet} {caps : Nat → Nat} (hg : GReach g.w caps)
-    (hall : AllInv g.w) (h : g.step op = some (g', r)) {i : Nat} {v : Iov} (hv : g.w.iov i = some v)
+    (h : g.step op = some (g', r)) {i : Nat} {v : Iov} (hv : g.w.iov i = some v)
     (hop : (∃ k, op = .consume i k) ∨ op = .pop i ∨ (∃ k, op = .advance i k) ∨ (∃ k, op = .read i k)) :
     ∃ n rm, r = .took n rm ∧ (absW g i).cells = rm.map Cell.byte ++ (absW g' i).cells ∧
       (absW g' i).consumed = (absW g i).consumed ++ rm ∧ (absW g' i).size + rm.length = (absW g i).size ∧
       ((∃ k, op = .advance i k ∨ op = .read i k) → n = rm.length) := by
-  have hpf : PushFresh g.w op := by
-    intro i' si v' a e
-    rcases hop with ⟨k, rfl⟩ | rfl | ⟨k, rfl⟩ | ⟨k, rfl⟩ <;> cases e
   have hi : op.iovTarget = some i := by
     rcases hop with ⟨k, rfl⟩ | rfl | ⟨k, rfl⟩ | ⟨k, rfl⟩ <;> rfl
-  obtain ⟨habs, hok⟩ := named_handle_refines_partial hg hall hpf h hi hv
+  obtain ⟨habs, hok⟩ := named_handle_refines hg h hi hv
   obtain ⟨w', h1, _, hr⟩ := GW.step_some' h
   have key : ∀ n rm, r = .took n rm → rm <+: (absW g i).stable → absW g' i = ((absW g i).consume rm.length).1 →
       (absW g i).cells = rm.map Cell.byte ++ (absW g' i).cells ∧
@@ -198,14 +201,12 @@ theorem consume_reports_w {g g' : GW} {op : WOp} {r : WRet} {caps : Nat → Nat}
       obtain ⟨a, b, c'⟩ := key _ _ rfl hok.2.2 habs
       exact ⟨_, _, rfl, a, b, c', fun _ => rfl⟩
 
-/-- No exposed slice of any iovec is empty, in every state reached by such a history. -/
-theorem no_empty_slice_w_partial (pol : Policy) (tun : Tuning) (ops : List WOp) (g : GW) (rs : List WRet)
-    (hok : (GW.init pol tun).OkRun ops) (h : (GW.init pol tun).run ops = some (g, rs)) :
-    ∀ j v, g.w.iov j = some v → ∀ sl ∈ v.slices, 0 < sl.len := by
-  obtain ⟨hall, _, _⟩ := reachable_refines_w_partial pol tun ops g rs hok h
-  exact fun j v hv sl hsl => ((hall j v hv).slices_ok sl hsl).pos
+/-- No exposed slice of any iovec is empty, in every reachable world. -/
+theorem no_empty_slice_w {w : World} (h : Reachable w) :
+    ∀ j v, w.iov j = some v → ∀ sl ∈ v.slices, 0 < sl.len :=
+  fun j v hv sl hsl => ((reachable_inv_w h j v hv).slices_ok sl hsl).pos
 
-/-- The side conditions are decided by running the model. -/
+/-- The side condition is decided by running the model. -/
 theorem ok_run_decidable (pol : Policy) (tun : Tuning) (ops : List WOp)
     (h : (World.init pol tun).okRunB ops = true) : (GW.init pol tun).OkRun ops :=
   okRunB_sound ops (GW.init pol tun) h
@@ -264,9 +265,13 @@ example : (World.init exPol exTun).okRunB [.new, .pushCopy 0 [1], .register 0 [0
 example : exObs [.new, .pushCopy 0 [1], .register 0 [0, 0], .clone 0, .backfill 1 0 [7, 7], .backfill 0 0 [8, 9]] = some
     ([.handle 0, .unit, .token (some (3, ⟨0, 1, 2⟩)), .handle 1, .unit, .unit],
      [([.byte 1, .byte 8, .byte 9], []), ([.byte 1, .byte 8, .byte 9], [])]) := by decide +kernel
--- `PushFresh` rejects exactly the double push of a cloned anchored slice.
+-- The double push of a cloned anchored slice (overlapping slices inside one iovec) is covered: both copies'
+-- bytes are appended.
 example : (World.init exPol exTun).okRunB [.new, .newArena, .readNArena 0 100 3 (List.replicate 100 7) [.deliver 100],
-    .sClone 0, .pushASlice 0 0, .pushASlice 0 1] = false := by decide +kernel
+    .sClone 0, .pushASlice 0 0, .pushASlice 0 1] = true := by decide +kernel
+example : ((GW.init exPol exTun).run [.new, .newArena, .readNArena 0 100 3 (List.replicate 100 7) [.deliver 100],
+    .sClone 0, .pushASlice 0 0, .pushASlice 0 1]).map (fun x => ((absW x.1 0).cells.length, (x.1.w.iov 0).map (·.slices))) =
+    some (200, some [⟨.chunk 0, 0, 100⟩, ⟨.chunk 0, 0, 100⟩]) := by decide +kernel
 
 /-- The hypotheses of the run-level theorems are satisfiable: both example histories run. -/
 example : ((GW.init exPol exTun).run exA).isSome = true ∧ ((GW.init exPol exTun).run exB).isSome = true := by
